@@ -1,10 +1,14 @@
 package props
 
 import (
+	"bytes"
 	"crypto/md5"
 	"encoding/binary"
 	"fmt"
+	"io/ioutil"
+	"os"
 	"path"
+	"path/filepath"
 	"runtime"
 	"sort"
 	"strings"
@@ -24,11 +28,12 @@ import (
 // re-checksummed, so only semantic validation can reject it.
 
 type c19Case struct {
-	Fmt    string `json:"fmt"`              // p2, p1
-	Muts   []int  `json:"muts"`             // indices into the mutation table
-	Names  []string `json:"names,omitempty"` // mutation names (informational)
-	Where  int    `json:"where"`            // 0 index+volumes, 1 index only, 2 volumes only, 3 only the second volume file
-	Data   int    `json:"data"`             // 0 data intact, 1 first file missing, 2 second file's first slice overwritten
+	Fmt   string   `json:"fmt"`             // p2, p1
+	Muts  []int    `json:"muts"`            // indices into the mutation table
+	Names []string `json:"names,omitempty"` // mutation names (informational)
+	Where int      `json:"where"`           // 0 index+volumes, 1 index only, 2 volumes only, 3 only the second volume file
+	Data  int      `json:"data"`            // 0 data intact, 1 first file missing, 2 second file's first slice overwritten
+	Env   []int    `json:"env,omitempty"`   // real-directory case: odd directory entries whose names fall into the set's name space (see c19EnvNames)
 }
 
 // ---------------------------------------------------------------- PAR2 spec
@@ -595,6 +600,17 @@ func init() {
 // ---------------------------------------------------------------- generation
 
 func c19Gen(g *core.Gen) {
+	// odd directory entries (real directories): every single kind and every ordered pair
+	for _, f := range []string{"p2", "p1"} {
+		for a := range c19EnvKinds {
+			g.Emit(&c19Case{Fmt: f, Env: []int{a}, Names: []string{c19EnvKinds[a]}})
+			for b := range c19EnvKinds {
+				if a != b {
+					g.Emit(&c19Case{Fmt: f, Env: []int{a, b}, Names: []string{c19EnvKinds[a], c19EnvKinds[b]}})
+				}
+			}
+		}
+	}
 	for _, f := range []string{"p2", "p1"} {
 		n := len(c19P2Muts)
 		if f == "p1" {
@@ -647,8 +663,130 @@ func c19AllocBound(present int, slice uint64, slicesPresent int) uint64 {
 	return 64*(uint64(present)+slice*uint64(1+slicesPresent)) + 256<<20
 }
 
+// c19EnvKinds: directory entries that are not regular files, placed under names the decoders look for.
+var c19EnvKinds = []string{"dangling symlink as a recovery file", "directory as a recovery file", "symlink loop as a recovery file",
+	"dangling symlink as a data file", "directory as a data file", "symlink to the index as a recovery file", "empty recovery file", "dangling symlink as a look-alike recovery file"}
+
+// c19RunEnv: a valid set on a real directory plus such entries; exported Verify / Repair must return an error or a
+// truthful result and never panic.
+func c19RunEnv(c *c19Case, r *core.Rec) {
+	c19EnvSeq++
+	root := filepath.Join(workerScratch(), fmt.Sprintf("c19env-%d", c19EnvSeq))
+	os.RemoveAll(root)
+	defer os.RemoveAll(root)
+	os.MkdirAll(root, 0755)
+	datas := [][]byte{scen.Content("uniq", r.Seed, 0, 11, 4), scen.Content("uniq", r.Seed, 1, 6, 4), scen.Content("uniq", r.Seed, 2, 9, 4)}
+	var paths []string
+	for i, d := range datas {
+		p := filepath.Join(root, fmt.Sprintf("f%d", i))
+		ioutil.WriteFile(p, d, 0644)
+		paths = append(paths, p)
+	}
+	index := filepath.Join(root, "s.par2")
+	var err error
+	if c.Fmt == "p2" {
+		err = par2.Create(index, paths, par2.CreateOptions{SliceByteCount: 4, NumParityShards: 4, NumGoroutines: 1})
+	} else {
+		index = filepath.Join(root, "s.par")
+		err = par1.Create(index, paths, par1.CreateOptions{NumParityFiles: 2})
+	}
+	if err != nil {
+		r.Violatef("env-setup-create-failed", "%v", err)
+		return
+	}
+	recName := func(k int) string { // a name the decoder will look for that is not taken yet
+		if c.Fmt == "p2" {
+			return filepath.Join(root, fmt.Sprintf("s.vol9%d+01.par2", k))
+		}
+		return filepath.Join(root, fmt.Sprintf("s.p%02d", 3+k))
+	}
+	os.Remove(paths[2]) // one file is missing: Repair has work to do
+	for k, e := range c.Env {
+		switch e {
+		case 0:
+			os.Symlink(filepath.Join(root, "nowhere"), recName(k))
+		case 1:
+			os.MkdirAll(filepath.Join(recName(k), "inner"), 0755)
+		case 2:
+			os.Symlink(recName(k), recName(k))
+		case 3:
+			os.Remove(paths[1])
+			os.Symlink(filepath.Join(root, "nowhere2"), paths[1])
+		case 4:
+			os.Remove(paths[1])
+			os.MkdirAll(paths[1], 0755)
+		case 5:
+			os.Symlink(index, recName(k))
+		case 6:
+			ioutil.WriteFile(recName(k), nil, 0644)
+		case 7:
+			if c.Fmt == "p2" {
+				os.Symlink(filepath.Join(root, "nowhere3"), filepath.Join(root, "s.backup.par2"))
+			} else {
+				os.Symlink(filepath.Join(root, "nowhere3"), filepath.Join(root, "s.p01x"))
+			}
+		}
+	}
+	for _, op := range []string{"verify", "repair"} {
+		var verr error
+		usable := -1
+		pi := core.Catch(func() {
+			switch {
+			case c.Fmt == "p2" && op == "verify":
+				res, e := par2.Verify(index, par2.VerifyOptions{NumGoroutines: 1})
+				verr, usable = e, res.ShardCounts.UsableDataShardCount
+			case c.Fmt == "p2":
+				_, verr = par2.Repair(index, par2.RepairOptions{NumGoroutines: 1})
+			case op == "verify":
+				res, e := par1.Verify(index, par1.VerifyOptions{VerifyAllData: true})
+				verr, usable = e, res.FileCounts.UsableDataFileCount
+			default:
+				_, verr = par1.Repair(index, par1.RepairOptions{})
+			}
+		})
+		r.AddTransitions(1)
+		what := fmt.Sprintf("%s with %v: %s", c.Fmt, c.Names, op)
+		if pi != nil {
+			r.Violatef(op+"-panic:"+pi.Frame+":"+panicClass(pi.Value), "%s: %s\n%s", what, pi.Value, pi.Stack)
+			continue
+		}
+		r.Outcome(fmt.Sprintf("env %s %s %s", c.Fmt, op, errClass(verr)))
+		if op == "verify" && verr == nil {
+			// truthful: never more usable data than really present intact
+			present := 0
+			for i, p := range paths {
+				if b, e := ioutil.ReadFile(p); e == nil && bytes.Equal(b, datas[i]) {
+					if c.Fmt == "p2" {
+						present += (len(datas[i]) + 3) / 4
+					} else {
+						present++
+					}
+				}
+			}
+			if usable > present {
+				r.Violatef("usable-data-not-truthful", "%s: %d usable reported, %d present", what, usable, present)
+			}
+		}
+		if op == "repair" && verr == nil {
+			for i, p := range paths {
+				if b, e := ioutil.ReadFile(p); e != nil || !bytes.Equal(b, datas[i]) {
+					r.Violatef("repair-nil-but-files-differ", "%s returned nil but %s is not original", what, p)
+				}
+			}
+		}
+	}
+	r.AddStates(1)
+	r.NontrivialCase()
+}
+
+var c19EnvSeq int
+
 func c19Run(ci interface{}, r *core.Rec) {
 	c := ci.(*c19Case)
+	if c.Env != nil {
+		c19RunEnv(c, r)
+		return
+	}
 	if c.Fmt == "p2" {
 		c19RunP2(c, r)
 	} else {
@@ -1032,7 +1170,7 @@ func init() {
 	core.Register(&core.Prop{
 		ID:    "C19",
 		Level: "model_checking",
-		Rule: "bounded-exhaustive semantic mutations through the reference writers (every mutated packet / volume is re-checksummed): PAR2: main packet slice size and count at boundary values (with re-sealed and with stale set id), duplicate / unsorted / missing / unknown ids, removal and duplication of each packet type, every file description length at boundary values (id recomputed), wrong hashes and ids, checksum lists longer / shorter / empty / huge, recovery exponents {1,4,5,100,65534,65535,65536,2^31,2^32-1}, recovery payloads of size {0,4,8,12,64}, duplicate exponent with different data, and every packet type's length field at {0,4,60,63,64,65,68,real-4,real+4,2^31,2^63-4,2^63,2^64-4}; PAR1: every header field and every entry field at boundary values, entry counts {253..257, 300} (extra entries saved / not saved) around the 256-shard limit, missing / duplicated entries, truncated data, odd name bytes. " +
+		Rule: "bounded-exhaustive semantic mutations through the reference writers (every mutated packet / volume is re-checksummed): PAR2: main packet slice size and count at boundary values (with re-sealed and with stale set id), duplicate / unsorted / missing / unknown ids, removal and duplication of each packet type, every file description length at boundary values (id recomputed), wrong hashes and ids, checksum lists longer / shorter / empty / huge, recovery exponents {1,4,5,100,65534,65535,65536,2^31,2^32-1}, recovery payloads of size {0,4,8,12,64}, duplicate exponent with different data, and every packet type's length field at {0,4,60,63,64,65,68,real-4,real+4,2^31,2^63-4,2^63,2^64-4}; PAR1: every header field and every entry field at boundary values, entry counts {253..257, 300} (extra entries saved / not saved) around the 256-shard limit, missing / duplicated entries, truncated data, odd name bytes; plus, on real directories, a valid set with directory entries that are not regular files under names the decoders look for (dangling symlink / directory / symlink loop / symlink to the index / empty file as a recovery file or look-alike, dangling symlink / directory as a data file), singly and in all ordered pairs. " +
 			"Each mutation applied to index+volumes / index only / volumes only / the second volume file only x data {intact, first file missing, a slice overwritten}; all single mutations in every placement and data state, and ALL pairs (quick: 2 placements, rotating data state; thorough: 4 placements x 3 data states); real Verify and Repair. " +
 			"Oracle: no panic / crash / hang; TotalAlloc delta <= 64 x (bytes present + declared slice size x 6) + 256 MiB; usable recovery blocks <= recovery packets whose payload has the declared slice size; usable data <= declared checksum entries matching bytes actually present; every write matches the archive's own MD5 and length for that path. non-trivial = every case",
 		Assumptions: []string{"slice sizes >= 2^26 are capped in the allocation bound; 2^31-class slice sizes (seconds of legitimate proportional allocation) are not executed", "TotalAlloc is attributed per execution because workers are single-threaded"},
